@@ -165,27 +165,33 @@ FairSpec == Spec /\ \A t \in Threads : WF_vars(Step(t))
 
 \* ---------------------------------------------------------------- properties (C29)
 AllDone == \A t \in Threads : Kind(t) = "done"
-Min(S) == CHOOSE m \in S : \A k \in S : m <= k
-\* closure of a set of requested unions as a canonical representative function
-RECURSIVE Reach(_, _, _)
-Reach(E, S, k) == IF k = 0 THEN S
-                  ELSE Reach(E, S \cup {m \in Node : \E n \in S : <<n, m>> \in E \/ <<m, n>> \in E}, k - 1)
-ClosureRep(E) == [n \in Node |-> Min(Reach(E, {n}, N))]
+\* closure of a set of requested unions as a canonical representative function (least member of the class)
+Merge(rep, a, b) == IF rep[a] = rep[b] THEN rep
+                    ELSE LET lo == IF rep[a] < rep[b] THEN rep[a] ELSE rep[b]
+                             hi == IF rep[a] < rep[b] THEN rep[b] ELSE rep[a]
+                         IN [n \in Node |-> IF rep[n] = hi THEN lo ELSE rep[n]]
+RECURSIVE MergeAll(_, _)
+MergeAll(rep, E) == IF E = {} THEN rep
+                    ELSE LET e == CHOOSE e \in E : TRUE IN MergeAll(Merge(rep, e[1], e[2]), E \ {e})
+ClosureRep(E) == MergeAll([n \in Node |-> n], E)
 UnionsIn(t, k) == {<<Code(t)[i][2], Code(t)[i][3]>> : i \in {j \in 1..k : Code(t)[j][1] = "u"}}
 Completed == UNION {UnionsIn(t, ip[t] - 1) : t \in Threads}                                   \* unions that returned
 Called == UNION {UnionsIn(t, IF pc[t] = "next" THEN ip[t] - 1 ELSE ip[t]) : t \in Threads}    \* unions that were called
 Requested == UNION {UnionsIn(t, Len(Code(t))) : t \in Threads}
+Roots == [n \in Node |-> RootOf(block, n)]
 
 TypeOK == /\ block \in [Node -> [p : Node, r : 0..N]]
           /\ pc \in [Threads -> {"next", "F1", "F2", "F3", "F4", "S2", "U2", "U3", "U4", "U5", "U6", "U7"}]
           /\ \A t \in Threads : x[t] \in Node /\ y[t] \in Node /\ np[t] \in Node /\ ip[t] \in 1..Len(Code(t)) + 1
-\* a union that has returned stays in force (nothing is ever lost)
-UnionsHold == Acyclic => LET c == ClosureRep(Completed) IN \A a, b \in Node : c[a] = c[b] => Same(block, a, b)
+\* a union that has returned stays in force (nothing is ever lost); Same is an equivalence on an acyclic array
+UnionsHold == Acyclic => \A e \in Completed : Same(block, e[1], e[2])
 \* nothing is merged that was not requested by a union already called
-NoSpurious == Acyclic => LET c == ClosureRep(Called) IN \A a, b \in Node : Same(block, a, b) => c[a] = c[b]
+NoSpurious == Acyclic => LET c == ClosureRep(Called)  rt == Roots
+                         IN \A a, b \in Node : rt[a] = rt[b] => c[a] = c[b]
 \* the final partition is exactly the closure of the requested unions
 FinalPartition == AllDone => /\ Acyclic
-                             /\ LET c == ClosureRep(Requested) IN \A a, b \in Node : Same(block, a, b) <=> c[a] = c[b]
+                             /\ LET c == ClosureRep(Requested)  rt == Roots
+                                IN \A a, b \in Node : rt[a] = rt[b] <=> c[a] = c[b]
 \* sets only grow, so "the answer is correct at some instant during the call" is: true => same set at the return,
 \* false => different sets at the call.  Checked in the state right after the return.
 JustReturned(t, k) == pc[t] = "next" /\ ip[t] > 1 /\ Code(t)[ip[t] - 1][1] = k
